@@ -71,6 +71,7 @@ fn run(ctx: &RunCtx) {
         configs: &gen_configs,
         filters,
         nontrivial: &|s| ["compound_assign", "continue", "if_expr", "interp_string", "floor_div", "const_local", "type_decl"].iter().any(|k| s.contains_key(k)),
+        lua51_target: true,
     };
     common::run_behaviour(ctx, "programs", &spec);
 }
